@@ -68,11 +68,15 @@ package config
 // is an obligation at that call (the ~20 per-receiver loops before it are left un-annotated: whatever they do, the
 // checks below come afterwards). Uniqueness of receiver names is established inside the receivers loop and is not
 // claimed here.
+// no receiver is left with a nil integration configuration (a null list entry is either refused or completed and stored)
+//@ spec ownLists(c *Config) bool = (forall a int, b int :: 0 <= a && a < b && b < len(c.Receivers) ==> c.Receivers[a].SlackConfigs == nil || base(c.Receivers[a].SlackConfigs) != base(c.Receivers[b].SlackConfigs)) && (forall a int, b int :: 0 <= a && a < b && b < len(c.Receivers) ==> c.Receivers[a].OpsGenieConfigs == nil || base(c.Receivers[a].OpsGenieConfigs) != base(c.Receivers[b].OpsGenieConfigs)) && (forall a int, b int :: 0 <= a && a < b && b < len(c.Receivers) ==> c.Receivers[a].WechatConfigs == nil || base(c.Receivers[a].WechatConfigs) != base(c.Receivers[b].WechatConfigs)) && (forall a int, b int :: 0 <= a && a < b && b < len(c.Receivers) ==> c.Receivers[a].RocketchatConfigs == nil || base(c.Receivers[a].RocketchatConfigs) != base(c.Receivers[b].RocketchatConfigs))
+//@ spec noNilCfgs(r Receiver) bool = (forall i int :: 0 <= i && i < len(r.WebhookConfigs) ==> r.WebhookConfigs[i] != nil) && (forall i int :: 0 <= i && i < len(r.EmailConfigs) ==> r.EmailConfigs[i] != nil) && (forall i int :: 0 <= i && i < len(r.SlackConfigs) ==> r.SlackConfigs[i] != nil) && (forall i int :: 0 <= i && i < len(r.PushoverConfigs) ==> r.PushoverConfigs[i] != nil) && (forall i int :: 0 <= i && i < len(r.PagerdutyConfigs) ==> r.PagerdutyConfigs[i] != nil) && (forall i int :: 0 <= i && i < len(r.IncidentioConfigs) ==> r.IncidentioConfigs[i] != nil) && (forall i int :: 0 <= i && i < len(r.OpsGenieConfigs) ==> r.OpsGenieConfigs[i] != nil) && (forall i int :: 0 <= i && i < len(r.WechatConfigs) ==> r.WechatConfigs[i] != nil) && (forall i int :: 0 <= i && i < len(r.VictorOpsConfigs) ==> r.VictorOpsConfigs[i] != nil) && (forall i int :: 0 <= i && i < len(r.SNSConfigs) ==> r.SNSConfigs[i] != nil) && (forall i int :: 0 <= i && i < len(r.TelegramConfigs) ==> r.TelegramConfigs[i] != nil) && (forall i int :: 0 <= i && i < len(r.DiscordConfigs) ==> r.DiscordConfigs[i] != nil) && (forall i int :: 0 <= i && i < len(r.WebexConfigs) ==> r.WebexConfigs[i] != nil) && (forall i int :: 0 <= i && i < len(r.MSTeamsConfigs) ==> r.MSTeamsConfigs[i] != nil) && (forall i int :: 0 <= i && i < len(r.MSTeamsV2Configs) ==> r.MSTeamsV2Configs[i] != nil) && (forall i int :: 0 <= i && i < len(r.JiraConfigs) ==> r.JiraConfigs[i] != nil) && (forall i int :: 0 <= i && i < len(r.RocketchatConfigs) ==> r.RocketchatConfigs[i] != nil) && (forall i int :: 0 <= i && i < len(r.MattermostConfigs) ==> r.MattermostConfigs[i] != nil)
 //@ func (*Config).UnmarshalYAML
 //@   props C17
 // what the decoder is assumed to hand over: a global section that went through GlobalConfig.UnmarshalYAML (whose
-// postcondition [http-config-never-nil] is proved); URL values are covered by the type invariant of common.URL
-//@   after call dynamic:param:unmarshal assume (c.Global != nil ==> c.Global.HTTPConfig != nil)
+// postcondition [http-config-never-nil] is proved), and integration lists of different receivers that do not share a
+// backing array (each list is decoded into its own slice); URL values are covered by the type invariant of common.URL
+//@   after call dynamic:param:unmarshal assume (c.Global != nil ==> c.Global.HTTPConfig != nil) && ownLists(c)
 //@   requires c != nil && unmarshal != nil
 //@   at call config.checkTimeInterval assert [root-route] c.Route != nil && len(c.Route.Receiver) > 0 && len(c.Route.Match) == 0 && len(c.Route.MatchRE) == 0 && len(c.Route.Matchers) == 0
 //@             && len(c.Route.MuteTimeIntervals) == 0 && len(c.Route.ActiveTimeIntervals) == 0
@@ -82,6 +86,48 @@ package config
 //@             && (forall i int, j int :: 0 <= i && i < len(c.MuteTimeIntervals) && 0 <= j && j < len(c.TimeIntervals) ==> c.MuteTimeIntervals[i].Name != c.TimeIntervals[j].Name)
 //@   at call config.checkTimeInterval assert [interval-names-collected] (forall i int :: 0 <= i && i < len(c.MuteTimeIntervals) ==> c.MuteTimeIntervals[i].Name in arg1)
 //@             && (forall j int :: 0 <= j && j < len(c.TimeIntervals) ==> c.TimeIntervals[j].Name in arg1)
+//@   ensures [no-nil-integration-config] result == nil ==> (forall k int, i int :: 0 <= k && k < len(c.Receivers) && 0 <= i && i < len(c.Receivers[k].WebhookConfigs) ==> c.Receivers[k].WebhookConfigs[i] != nil) && (forall k int, i int :: 0 <= k && k < len(c.Receivers) && 0 <= i && i < len(c.Receivers[k].EmailConfigs) ==> c.Receivers[k].EmailConfigs[i] != nil) && (forall k int, i int :: 0 <= k && k < len(c.Receivers) && 0 <= i && i < len(c.Receivers[k].SlackConfigs) ==> c.Receivers[k].SlackConfigs[i] != nil) && (forall k int, i int :: 0 <= k && k < len(c.Receivers) && 0 <= i && i < len(c.Receivers[k].PushoverConfigs) ==> c.Receivers[k].PushoverConfigs[i] != nil) && (forall k int, i int :: 0 <= k && k < len(c.Receivers) && 0 <= i && i < len(c.Receivers[k].PagerdutyConfigs) ==> c.Receivers[k].PagerdutyConfigs[i] != nil) && (forall k int, i int :: 0 <= k && k < len(c.Receivers) && 0 <= i && i < len(c.Receivers[k].IncidentioConfigs) ==> c.Receivers[k].IncidentioConfigs[i] != nil) && (forall k int, i int :: 0 <= k && k < len(c.Receivers) && 0 <= i && i < len(c.Receivers[k].OpsGenieConfigs) ==> c.Receivers[k].OpsGenieConfigs[i] != nil) && (forall k int, i int :: 0 <= k && k < len(c.Receivers) && 0 <= i && i < len(c.Receivers[k].WechatConfigs) ==> c.Receivers[k].WechatConfigs[i] != nil) && (forall k int, i int :: 0 <= k && k < len(c.Receivers) && 0 <= i && i < len(c.Receivers[k].VictorOpsConfigs) ==> c.Receivers[k].VictorOpsConfigs[i] != nil) && (forall k int, i int :: 0 <= k && k < len(c.Receivers) && 0 <= i && i < len(c.Receivers[k].SNSConfigs) ==> c.Receivers[k].SNSConfigs[i] != nil) && (forall k int, i int :: 0 <= k && k < len(c.Receivers) && 0 <= i && i < len(c.Receivers[k].TelegramConfigs) ==> c.Receivers[k].TelegramConfigs[i] != nil) && (forall k int, i int :: 0 <= k && k < len(c.Receivers) && 0 <= i && i < len(c.Receivers[k].DiscordConfigs) ==> c.Receivers[k].DiscordConfigs[i] != nil) && (forall k int, i int :: 0 <= k && k < len(c.Receivers) && 0 <= i && i < len(c.Receivers[k].WebexConfigs) ==> c.Receivers[k].WebexConfigs[i] != nil) && (forall k int, i int :: 0 <= k && k < len(c.Receivers) && 0 <= i && i < len(c.Receivers[k].MSTeamsConfigs) ==> c.Receivers[k].MSTeamsConfigs[i] != nil) && (forall k int, i int :: 0 <= k && k < len(c.Receivers) && 0 <= i && i < len(c.Receivers[k].MSTeamsV2Configs) ==> c.Receivers[k].MSTeamsV2Configs[i] != nil) && (forall k int, i int :: 0 <= k && k < len(c.Receivers) && 0 <= i && i < len(c.Receivers[k].JiraConfigs) ==> c.Receivers[k].JiraConfigs[i] != nil) && (forall k int, i int :: 0 <= k && k < len(c.Receivers) && 0 <= i && i < len(c.Receivers[k].RocketchatConfigs) ==> c.Receivers[k].RocketchatConfigs[i] != nil) && (forall k int, i int :: 0 <= k && k < len(c.Receivers) && 0 <= i && i < len(c.Receivers[k].MattermostConfigs) ==> c.Receivers[k].MattermostConfigs[i] != nil)
+//@   loop 1 invariant ownLists(c) && rangeindex < len(c.Receivers)
+//@   loop 1 invariant forall k int, i int :: 0 <= k && k <= rangeindex && 0 <= i && i < len(c.Receivers[k].WebhookConfigs) ==> c.Receivers[k].WebhookConfigs[i] != nil
+//@   loop 1 invariant forall k int, i int :: 0 <= k && k <= rangeindex && 0 <= i && i < len(c.Receivers[k].EmailConfigs) ==> c.Receivers[k].EmailConfigs[i] != nil
+//@   loop 1 invariant forall k int, i int :: 0 <= k && k <= rangeindex && 0 <= i && i < len(c.Receivers[k].SlackConfigs) ==> c.Receivers[k].SlackConfigs[i] != nil
+//@   loop 1 invariant forall k int, i int :: 0 <= k && k <= rangeindex && 0 <= i && i < len(c.Receivers[k].PushoverConfigs) ==> c.Receivers[k].PushoverConfigs[i] != nil
+//@   loop 1 invariant forall k int, i int :: 0 <= k && k <= rangeindex && 0 <= i && i < len(c.Receivers[k].PagerdutyConfigs) ==> c.Receivers[k].PagerdutyConfigs[i] != nil
+//@   loop 1 invariant forall k int, i int :: 0 <= k && k <= rangeindex && 0 <= i && i < len(c.Receivers[k].IncidentioConfigs) ==> c.Receivers[k].IncidentioConfigs[i] != nil
+//@   loop 1 invariant forall k int, i int :: 0 <= k && k <= rangeindex && 0 <= i && i < len(c.Receivers[k].OpsGenieConfigs) ==> c.Receivers[k].OpsGenieConfigs[i] != nil
+//@   loop 1 invariant forall k int, i int :: 0 <= k && k <= rangeindex && 0 <= i && i < len(c.Receivers[k].WechatConfigs) ==> c.Receivers[k].WechatConfigs[i] != nil
+//@   loop 1 invariant forall k int, i int :: 0 <= k && k <= rangeindex && 0 <= i && i < len(c.Receivers[k].VictorOpsConfigs) ==> c.Receivers[k].VictorOpsConfigs[i] != nil
+//@   loop 1 invariant forall k int, i int :: 0 <= k && k <= rangeindex && 0 <= i && i < len(c.Receivers[k].SNSConfigs) ==> c.Receivers[k].SNSConfigs[i] != nil
+//@   loop 1 invariant forall k int, i int :: 0 <= k && k <= rangeindex && 0 <= i && i < len(c.Receivers[k].TelegramConfigs) ==> c.Receivers[k].TelegramConfigs[i] != nil
+//@   loop 1 invariant forall k int, i int :: 0 <= k && k <= rangeindex && 0 <= i && i < len(c.Receivers[k].DiscordConfigs) ==> c.Receivers[k].DiscordConfigs[i] != nil
+//@   loop 1 invariant forall k int, i int :: 0 <= k && k <= rangeindex && 0 <= i && i < len(c.Receivers[k].WebexConfigs) ==> c.Receivers[k].WebexConfigs[i] != nil
+//@   loop 1 invariant forall k int, i int :: 0 <= k && k <= rangeindex && 0 <= i && i < len(c.Receivers[k].MSTeamsConfigs) ==> c.Receivers[k].MSTeamsConfigs[i] != nil
+//@   loop 1 invariant forall k int, i int :: 0 <= k && k <= rangeindex && 0 <= i && i < len(c.Receivers[k].MSTeamsV2Configs) ==> c.Receivers[k].MSTeamsV2Configs[i] != nil
+//@   loop 1 invariant forall k int, i int :: 0 <= k && k <= rangeindex && 0 <= i && i < len(c.Receivers[k].JiraConfigs) ==> c.Receivers[k].JiraConfigs[i] != nil
+//@   loop 1 invariant forall k int, i int :: 0 <= k && k <= rangeindex && 0 <= i && i < len(c.Receivers[k].RocketchatConfigs) ==> c.Receivers[k].RocketchatConfigs[i] != nil
+//@   loop 1 invariant forall k int, i int :: 0 <= k && k <= rangeindex && 0 <= i && i < len(c.Receivers[k].MattermostConfigs) ==> c.Receivers[k].MattermostConfigs[i] != nil
+//@   loop 2 invariant rangeindex < len(rcv.WebhookConfigs) && rangeindex1 + 1 < len(c.Receivers) && rcv.WebhookConfigs == c.Receivers[rangeindex1 + 1].WebhookConfigs && (forall i int :: 0 <= i && i <= rangeindex ==> rcv.WebhookConfigs[i] != nil)
+//@   loop 3 invariant rangeindex < len(rcv.EmailConfigs) && rangeindex1 + 1 < len(c.Receivers) && rcv.EmailConfigs == c.Receivers[rangeindex1 + 1].EmailConfigs && (forall i int :: 0 <= i && i <= rangeindex ==> rcv.EmailConfigs[i] != nil)
+//@   loop 4 invariant rangeindex < len(rcv.SlackConfigs) && rangeindex1 + 1 < len(c.Receivers) && rcv.SlackConfigs == c.Receivers[rangeindex1 + 1].SlackConfigs && (forall i int :: 0 <= i && i <= rangeindex ==> rcv.SlackConfigs[i] != nil)
+//@   loop 4 invariant ownLists(c) && (forall k int, i int :: 0 <= k && k <= rangeindex1 && 0 <= i && i < len(c.Receivers[k].SlackConfigs) ==> c.Receivers[k].SlackConfigs[i] != nil)
+//@   loop 5 invariant rangeindex < len(rcv.PushoverConfigs) && rangeindex1 + 1 < len(c.Receivers) && rcv.PushoverConfigs == c.Receivers[rangeindex1 + 1].PushoverConfigs && (forall i int :: 0 <= i && i <= rangeindex ==> rcv.PushoverConfigs[i] != nil)
+//@   loop 6 invariant rangeindex < len(rcv.PagerdutyConfigs) && rangeindex1 + 1 < len(c.Receivers) && rcv.PagerdutyConfigs == c.Receivers[rangeindex1 + 1].PagerdutyConfigs && (forall i int :: 0 <= i && i <= rangeindex ==> rcv.PagerdutyConfigs[i] != nil)
+//@   loop 7 invariant rangeindex < len(rcv.IncidentioConfigs) && rangeindex1 + 1 < len(c.Receivers) && rcv.IncidentioConfigs == c.Receivers[rangeindex1 + 1].IncidentioConfigs && (forall i int :: 0 <= i && i <= rangeindex ==> rcv.IncidentioConfigs[i] != nil)
+//@   loop 8 invariant rangeindex < len(rcv.OpsGenieConfigs) && rangeindex1 + 1 < len(c.Receivers) && rcv.OpsGenieConfigs == c.Receivers[rangeindex1 + 1].OpsGenieConfigs && (forall i int :: 0 <= i && i <= rangeindex ==> rcv.OpsGenieConfigs[i] != nil)
+//@   loop 8 invariant ownLists(c) && (forall k int, i int :: 0 <= k && k <= rangeindex1 && 0 <= i && i < len(c.Receivers[k].OpsGenieConfigs) ==> c.Receivers[k].OpsGenieConfigs[i] != nil)
+//@   loop 9 invariant rangeindex < len(rcv.WechatConfigs) && rangeindex1 + 1 < len(c.Receivers) && rcv.WechatConfigs == c.Receivers[rangeindex1 + 1].WechatConfigs && (forall i int :: 0 <= i && i <= rangeindex ==> rcv.WechatConfigs[i] != nil)
+//@   loop 9 invariant ownLists(c) && (forall k int, i int :: 0 <= k && k <= rangeindex1 && 0 <= i && i < len(c.Receivers[k].WechatConfigs) ==> c.Receivers[k].WechatConfigs[i] != nil)
+//@   loop 10 invariant rangeindex < len(rcv.VictorOpsConfigs) && rangeindex1 + 1 < len(c.Receivers) && rcv.VictorOpsConfigs == c.Receivers[rangeindex1 + 1].VictorOpsConfigs && (forall i int :: 0 <= i && i <= rangeindex ==> rcv.VictorOpsConfigs[i] != nil)
+//@   loop 11 invariant rangeindex < len(rcv.SNSConfigs) && rangeindex1 + 1 < len(c.Receivers) && rcv.SNSConfigs == c.Receivers[rangeindex1 + 1].SNSConfigs && (forall i int :: 0 <= i && i <= rangeindex ==> rcv.SNSConfigs[i] != nil)
+//@   loop 12 invariant rangeindex < len(rcv.TelegramConfigs) && rangeindex1 + 1 < len(c.Receivers) && rcv.TelegramConfigs == c.Receivers[rangeindex1 + 1].TelegramConfigs && (forall i int :: 0 <= i && i <= rangeindex ==> rcv.TelegramConfigs[i] != nil)
+//@   loop 13 invariant rangeindex < len(rcv.DiscordConfigs) && rangeindex1 + 1 < len(c.Receivers) && rcv.DiscordConfigs == c.Receivers[rangeindex1 + 1].DiscordConfigs && (forall i int :: 0 <= i && i <= rangeindex ==> rcv.DiscordConfigs[i] != nil)
+//@   loop 14 invariant rangeindex < len(rcv.WebexConfigs) && rangeindex1 + 1 < len(c.Receivers) && rcv.WebexConfigs == c.Receivers[rangeindex1 + 1].WebexConfigs && (forall i int :: 0 <= i && i <= rangeindex ==> rcv.WebexConfigs[i] != nil)
+//@   loop 15 invariant rangeindex < len(rcv.MSTeamsConfigs) && rangeindex1 + 1 < len(c.Receivers) && rcv.MSTeamsConfigs == c.Receivers[rangeindex1 + 1].MSTeamsConfigs && (forall i int :: 0 <= i && i <= rangeindex ==> rcv.MSTeamsConfigs[i] != nil)
+//@   loop 16 invariant rangeindex < len(rcv.MSTeamsV2Configs) && rangeindex1 + 1 < len(c.Receivers) && rcv.MSTeamsV2Configs == c.Receivers[rangeindex1 + 1].MSTeamsV2Configs && (forall i int :: 0 <= i && i <= rangeindex ==> rcv.MSTeamsV2Configs[i] != nil)
+//@   loop 17 invariant rangeindex < len(rcv.JiraConfigs) && rangeindex1 + 1 < len(c.Receivers) && rcv.JiraConfigs == c.Receivers[rangeindex1 + 1].JiraConfigs && (forall i int :: 0 <= i && i <= rangeindex ==> rcv.JiraConfigs[i] != nil)
+//@   loop 18 invariant rangeindex < len(rcv.RocketchatConfigs) && rangeindex1 + 1 < len(c.Receivers) && rcv.RocketchatConfigs == c.Receivers[rangeindex1 + 1].RocketchatConfigs && (forall i int :: 0 <= i && i <= rangeindex ==> rcv.RocketchatConfigs[i] != nil)
+//@   loop 18 invariant ownLists(c) && (forall k int, i int :: 0 <= k && k <= rangeindex1 && 0 <= i && i < len(c.Receivers[k].RocketchatConfigs) ==> c.Receivers[k].RocketchatConfigs[i] != nil)
+//@   loop 19 invariant rangeindex < len(rcv.MattermostConfigs) && rangeindex1 + 1 < len(c.Receivers) && rcv.MattermostConfigs == c.Receivers[rangeindex1 + 1].MattermostConfigs && (forall i int :: 0 <= i && i <= rangeindex ==> rcv.MattermostConfigs[i] != nil)
 //@   ensures [only-exit-through-the-checks] result == nil ==> called("config.checkTimeInterval") && ret("config.checkTimeInterval") == nil
 //@   loop 20 invariant rangeindex < len(c.MuteTimeIntervals) && fresh(tiNames) && called("config.checkReceiver") && ret("config.checkReceiver") == nil
 //@   loop 20 invariant c.Route != nil && len(c.Route.Receiver) > 0 && len(c.Route.Match) == 0 && len(c.Route.MatchRE) == 0 && len(c.Route.Matchers) == 0 && len(c.Route.MuteTimeIntervals) == 0 && len(c.Route.ActiveTimeIntervals) == 0
@@ -167,3 +213,30 @@ package config
 //@   props C17
 //@   requires c != nil && unmarshal != nil
 //@   ensures [http-config-never-nil] result == nil ==> c.HTTPConfig != nil
+
+// ---- C17: what LoadFile does with an accepted configuration (file paths made absolute): safety obligations only. It
+// relies on Config.UnmarshalYAML's proved postcondition [no-nil-integration-config] (assumed here: the configuration
+// comes out of the decoder, which ran Config.UnmarshalYAML on it) - a genuine panic for null Slack/OpsGenie/WeChat/
+// Rocket.Chat entries was repaired, see known_findings.txt.
+//@ func resolveFilepaths
+//@   props C17
+//@   requires cfg != nil
+//@   assumes cfg.Global != nil
+//@   assumes forall k int, i int :: 0 <= k && k < len(cfg.Receivers) && 0 <= i && i < len(cfg.Receivers[k].WebhookConfigs) ==> cfg.Receivers[k].WebhookConfigs[i] != nil
+//@   assumes forall k int, i int :: 0 <= k && k < len(cfg.Receivers) && 0 <= i && i < len(cfg.Receivers[k].EmailConfigs) ==> cfg.Receivers[k].EmailConfigs[i] != nil
+//@   assumes forall k int, i int :: 0 <= k && k < len(cfg.Receivers) && 0 <= i && i < len(cfg.Receivers[k].SlackConfigs) ==> cfg.Receivers[k].SlackConfigs[i] != nil
+//@   assumes forall k int, i int :: 0 <= k && k < len(cfg.Receivers) && 0 <= i && i < len(cfg.Receivers[k].PushoverConfigs) ==> cfg.Receivers[k].PushoverConfigs[i] != nil
+//@   assumes forall k int, i int :: 0 <= k && k < len(cfg.Receivers) && 0 <= i && i < len(cfg.Receivers[k].PagerdutyConfigs) ==> cfg.Receivers[k].PagerdutyConfigs[i] != nil
+//@   assumes forall k int, i int :: 0 <= k && k < len(cfg.Receivers) && 0 <= i && i < len(cfg.Receivers[k].IncidentioConfigs) ==> cfg.Receivers[k].IncidentioConfigs[i] != nil
+//@   assumes forall k int, i int :: 0 <= k && k < len(cfg.Receivers) && 0 <= i && i < len(cfg.Receivers[k].OpsGenieConfigs) ==> cfg.Receivers[k].OpsGenieConfigs[i] != nil
+//@   assumes forall k int, i int :: 0 <= k && k < len(cfg.Receivers) && 0 <= i && i < len(cfg.Receivers[k].WechatConfigs) ==> cfg.Receivers[k].WechatConfigs[i] != nil
+//@   assumes forall k int, i int :: 0 <= k && k < len(cfg.Receivers) && 0 <= i && i < len(cfg.Receivers[k].VictorOpsConfigs) ==> cfg.Receivers[k].VictorOpsConfigs[i] != nil
+//@   assumes forall k int, i int :: 0 <= k && k < len(cfg.Receivers) && 0 <= i && i < len(cfg.Receivers[k].SNSConfigs) ==> cfg.Receivers[k].SNSConfigs[i] != nil
+//@   assumes forall k int, i int :: 0 <= k && k < len(cfg.Receivers) && 0 <= i && i < len(cfg.Receivers[k].TelegramConfigs) ==> cfg.Receivers[k].TelegramConfigs[i] != nil
+//@   assumes forall k int, i int :: 0 <= k && k < len(cfg.Receivers) && 0 <= i && i < len(cfg.Receivers[k].DiscordConfigs) ==> cfg.Receivers[k].DiscordConfigs[i] != nil
+//@   assumes forall k int, i int :: 0 <= k && k < len(cfg.Receivers) && 0 <= i && i < len(cfg.Receivers[k].WebexConfigs) ==> cfg.Receivers[k].WebexConfigs[i] != nil
+//@   assumes forall k int, i int :: 0 <= k && k < len(cfg.Receivers) && 0 <= i && i < len(cfg.Receivers[k].MSTeamsConfigs) ==> cfg.Receivers[k].MSTeamsConfigs[i] != nil
+//@   assumes forall k int, i int :: 0 <= k && k < len(cfg.Receivers) && 0 <= i && i < len(cfg.Receivers[k].MSTeamsV2Configs) ==> cfg.Receivers[k].MSTeamsV2Configs[i] != nil
+//@   assumes forall k int, i int :: 0 <= k && k < len(cfg.Receivers) && 0 <= i && i < len(cfg.Receivers[k].JiraConfigs) ==> cfg.Receivers[k].JiraConfigs[i] != nil
+//@   assumes forall k int, i int :: 0 <= k && k < len(cfg.Receivers) && 0 <= i && i < len(cfg.Receivers[k].RocketchatConfigs) ==> cfg.Receivers[k].RocketchatConfigs[i] != nil
+//@   assumes forall k int, i int :: 0 <= k && k < len(cfg.Receivers) && 0 <= i && i < len(cfg.Receivers[k].MattermostConfigs) ==> cfg.Receivers[k].MattermostConfigs[i] != nil
